@@ -1568,6 +1568,9 @@ class Machine:
             if not (isinstance(v, bool) or is_z3(v)):
                 v = self.truth(v)
             return v
+        except (AttributeError, TypeError, KeyError, IndexError, z3.Z3Exception) as e:
+            # the sidecar clause talks about objects of a kind the code no longer has (e.g. an iterator that became a number)
+            raise Unsupported("the clause %r does not evaluate on this code (%s: %s)" % (text[:80], type(e).__name__, e))
         finally:
             if extra:
                 self.quant_scope.pop()
